@@ -11,6 +11,9 @@ CONSTANTS
   SameAddr <- ProbedSameAddr
   MaxTx = 2
   MaxBlocks = 1
+  EnvKinds <- KindsEnv
+  Paths <- PathsOne
+  EnvFromIndex = FALSE
   LazyFromRaw = TRUE
 VIEW view
 CONSTRAINT InitOut
